@@ -25,6 +25,7 @@ import (
 )
 
 const boxPath = "gno.land/r/sim/box"
+const libPath = "gno.land/p/sim/lib"
 
 // ---- process-level post-genesis images --------------------------------------
 
@@ -67,7 +68,7 @@ func baseImage(maxGas int64) *image {
 	}
 	acts := newActors()
 	g := genesisSpec{Balance: genesisBalance, MaxGas: maxGas,
-		Packages: []*std.MemPackage{readRealm(gnoDir("box"), boxPath)}}
+		Packages: []*std.MemPackage{readRealm(gnoDir("lib"), libPath), readRealm(gnoDir("box"), boxPath)}}
 	for _, nm := range actorNames {
 		if nm == "dave" {
 			continue // dave has no account at genesis
@@ -146,9 +147,13 @@ type world struct {
 	accepted   [][]byte // tx bytes that were accepted (for replay attacks)
 	emptyKeys  map[string]bool
 	prevDump   stateDump
+	genesisDump stateDump
 	digest     []string
 	stop       bool
 	feeCollected int64
+	dynPkgs    map[string]bool
+	knownSeen  map[string]bool
+	dynCount   int
 	lastStorage, lastDeposit map[string]int64
 	onlyGrowth bool
 }
@@ -176,7 +181,8 @@ func (w *world) openNode(name string, prune ...stypes.PruneStrategy) *node {
 
 // ---- workload generation -----------------------------------------------------------
 
-var okFns = []string{"Incr", "Push", "Pop", "Share", "Unshare", "Adopt", "DropKids", "Grow", "Shrink", "PairBump", "Incr", "Push", "Push", "Grow"}
+var okFns = []string{"Incr", "Push", "Pop", "Share", "Unshare", "Adopt", "DropKids", "Grow", "Shrink", "PairBump", "Incr", "Push", "Push", "Grow",
+	"AddItem", "AddItem", "AddItem", "RemoveItem", "RemoveItem", "InsertItem", "SwapItems"}
 
 func (w *world) genBoxMsg() simMsg {
 	c := w.c
@@ -191,6 +197,14 @@ func (w *world) genBoxMsg() simMsg {
 		m.args = []string{strconv.Itoa(1 + c.Intn(3)), strconv.Itoa(8 + c.Intn(120))}
 	case "Shrink":
 		m.args = []string{strconv.Itoa(1 + c.Intn(6))}
+	case "AddItem":
+		m.args = []string{strconv.Itoa(1 + c.Intn(900))}
+	case "RemoveItem":
+		m.args = []string{strconv.Itoa(c.Intn(8))}
+	case "InsertItem":
+		m.args = []string{strconv.Itoa(c.Intn(8)), strconv.Itoa(1 + c.Intn(900))}
+	case "SwapItems":
+		m.args = []string{strconv.Itoa(c.Intn(8)), strconv.Itoa(c.Intn(8))}
 	}
 	return m
 }
@@ -201,6 +215,14 @@ func (w *world) buildTx(t *simTx) {
 	for _, m := range t.msgs {
 		if m.fn == "@send" {
 			msgs = append(msgs, bank.NewMsgSend(a.addr, w.acts[m.to].addr, coins(m.send)))
+		} else if m.fn == "@run" {
+			// MsgRun script importing the genesis library and the box realm
+			script := fmt.Sprintf("package main\n\nimport (\n\t\"gno.land/p/sim/lib\"\n\t\"gno.land/r/sim/box\"\n)\n\nfunc main(cur realm) {\n\tbox.Incr(cross(cur))\n\tprintln(lib.Tag(\"run\", lib.Double(%s)))\n}\n", m.args[0])
+			msgs = append(msgs, vm.NewMsgRun(a.addr, nil, []*std.MemFile{{Name: "main.gno", Body: script}}))
+		} else if m.fn == "@addpkg" {
+			name := m.args[0]
+			body := fmt.Sprintf("package %s\n\nimport \"gno.land/p/sim/lib\"\n\nvar V = lib.Double(%s)\n\nfunc Get() int { return V }\n", name, m.args[1])
+			msgs = append(msgs, vm.MsgAddPackage{Creator: a.addr, Package: memPkg("gno.land/r/sim/"+name, map[string]string{name + ".gno": body})})
 		} else {
 			msgs = append(msgs, vm.NewMsgCall(a.addr, nil, boxPath, m.fn, m.args))
 		}
@@ -283,6 +305,22 @@ func (w *world) genTx(weights []int) *simTx {
 		t.msgs = []simMsg{w.genBoxMsg(), {fn: []string{"Forever", "Forever", "Forever"}[c.Intn(3)]}}
 		t.gas = int64(3_000_000 + c.Intn(6_000_000))
 		t.why = "unbounded loop"
+	case 7: // MsgRun script importing a library package and a realm
+		t.kind, t.signer = kOK, w.payer(false)
+		t.msgs = []simMsg{{fn: "@run", args: []string{strconv.Itoa(c.Intn(50))}}}
+		t.why = "msgrun"
+	case 8: // deploy a fresh realm importing the library (or a colliding path)
+		t.kind, t.signer = kOK, w.payer(false)
+		w.dynCount++
+		name := fmt.Sprintf("dyn%d", w.dynCount)
+		if len(w.dynPkgs) > 0 && c.Intn(4) == 0 {
+			name = kernel.SortedKeys(w.dynPkgs)[c.Intn(len(w.dynPkgs))]
+			t.kind = kFail
+			t.why = "addpkg colliding path"
+		} else {
+			t.why = "addpkg"
+		}
+		t.msgs = []simMsg{{fn: "@addpkg", args: []string{name, strconv.Itoa(c.Intn(50))}}}
 	case 6: // ante rejections: no state change at all, not even a fee
 		t.kind, t.signer = kAnteReject, w.payer(c.Bool())
 		t.msgs = []simMsg{w.genBoxMsg()}
@@ -416,6 +454,17 @@ func (w *world) applyResult(t *simTx, r txResult, blockGasLeftBefore int64) {
 			modelFails = true
 			break
 		}
+		if m.fn == "@run" {
+			trial.apply("Incr", nil)
+			continue
+		}
+		if m.fn == "@addpkg" {
+			if w.dynPkgs[m.args[0]] {
+				modelFails = true // path already taken
+				break
+			}
+			continue
+		}
 		if trial.apply(m.fn, m.args) {
 			modelFails = true
 			break
@@ -434,6 +483,11 @@ func (w *world) applyResult(t *simTx, r txResult, blockGasLeftBefore int64) {
 		dep, ref := eventCoins(r.Events)
 		w.bal = trialBal
 		w.bal[t.signer] += ref - dep
+		for _, m := range t.msgs {
+			if m.fn == "@addpkg" {
+				w.dynPkgs[m.args[0]] = true
+			}
+		}
 		w.box = trial
 		w.r.Probe("tx_ok")
 		if len(t.msgs) > 1 {
@@ -470,6 +524,8 @@ func msgsString(ms []simMsg) string {
 	for _, m := range ms {
 		if m.fn == "@send" {
 			parts = append(parts, fmt.Sprintf("send(%d→%s)", m.send, m.to))
+		} else if m.fn == "@run" || m.fn == "@addpkg" {
+			parts = append(parts, m.fn[1:]+"("+strings.Join(m.args, ",")+")")
 		} else {
 			parts = append(parts, m.fn+"("+strings.Join(m.args, ",")+")")
 		}
@@ -603,7 +659,7 @@ func (w *world) checkBlock(b blockSpec, txs []*simTx, res blockResult) {
 // ---- the run -----------------------------------------------------------------------------------
 
 func runChain(c *kernel.Choices, p kernel.Params) *kernel.Result {
-	w := &world{c: c, r: kernel.NewResult(), p: p, prop: p.Property, emptyKeys: map[string]bool{}}
+	w := &world{c: c, r: kernel.NewResult(), p: p, prop: p.Property, emptyKeys: map[string]bool{}, dynPkgs: map[string]bool{}, knownSeen: map[string]bool{}}
 	small := false
 	switch p.Property {
 	case "C02", "C10":
@@ -656,7 +712,14 @@ func runChain(c *kernel.Choices, p kernel.Params) *kernel.Result {
 		nblocks = 6 + c.Intn(24)
 	}
 	// swarm weights: ok-call, send, multi, fail-at-k, oog-sweep, unbounded, ante-reject
-	weights := []int{3 + c.Intn(6), c.Intn(4), c.Intn(5), c.Intn(5), c.Intn(5), c.Intn(3), c.Intn(5)}
+	weights := []int{3 + c.Intn(6), c.Intn(4), c.Intn(5), c.Intn(5), c.Intn(5), c.Intn(3), c.Intn(5), c.Intn(4), c.Intn(3)}
+	if small {
+		weights[8] = 0 // deployments do not fit the small block gas limit
+	}
+	if p.Property == "C01" {
+		weights[7] += 2
+		weights[8] += 2
+	}
 	switch p.Property {
 	case "C02":
 		weights[3] += 3
@@ -779,8 +842,22 @@ func (w *world) checkGraph(b blockSpec, au *auditor) {
 	for _, id := range ids {
 		watch[id] = true
 	}
-	if bad := g.check(watch, false); len(bad) > 0 {
-		w.fail("C06", "object-graph", "height %d: %d inconsistencies in the persisted object graph, first: %s", b.Height, len(bad), strings.Join(bad[:min(3, len(bad))], " | "))
+	for _, is := range g.check(watch, false) {
+		if strings.HasPrefix(is.kind, "anomaly:") {
+			// integrity observations beyond the C06 statement: counted, not decided
+			w.r.Probe(is.kind)
+			continue
+		}
+		v := &kernel.Violation{Property: "C06", Oracle: is.kind, Signature: is.kind}
+		if k := w.p.IsKnown(v); k != nil {
+			if !w.knownSeen[is.kind] {
+				w.knownSeen[is.kind] = true
+				v.Msg = is.msg
+				w.r.Known = append(w.r.Known, *v)
+			}
+			continue
+		}
+		w.fail("C06", is.kind, "height %d: %s", b.Height, is.msg)
 		return
 	}
 	w.r.ProbeN("objects_audited", len(g.objs))
